@@ -1,5 +1,6 @@
 """C06 -- the result does not depend on the field-lookup strategy (data-first vs field-first)"""
 from vt import dcspec
+from vt.dcsym import GROUPS, QUICK, applicable, bounds_text, limit_for, sym_items, sym_options
 from vt.ob import ob
 
 PROP = 'C06'
@@ -7,71 +8,8 @@ ASSUMPTIONS = [
     "'a failure of the same kind': with fail-fast reporting both strategies must reject, and with collect_errors=True "
     'the sets of (error class, item) collected by the two strategies must be equal (fail-fast may legitimately meet two '
     'simultaneous problems in a different order)',
-    'options are passed at run time through cls.__from__(data, options=Options(...)), the documented route; '
-    'case_insensitive (fixed at declaration time) is given in the class options',
+    'options are declared in the class (__options__), the documented route for every option used here',
 ]
-
-GROUPS = {
-    'plain': [],
-    'required': ['ignore_required', 'no_default'],
-    'defaults': ['force_default', 'defer_default'],
-    'alias': ['ignore_alias_conflicts'],
-    'addition': ['addition', 'params'],
-    'mode': ['mode'],
-    'policy': ['invalid_values'],
-}
-
-
-def sym_options(V, group):
-    o = {}
-    for g in GROUPS[group]:
-        if g in ('ignore_required', 'no_default', 'defer_default', 'ignore_alias_conflicts'):
-            if V.bool(g):
-                o[g] = True
-        elif g == 'force_default':
-            if V.bool(g):
-                o[g] = 0
-        elif g == 'addition':
-            a = V.pick('addition', [None, True, False, int])
-            if a is not None:
-                o['addition'] = a
-        elif g == 'params':
-            if V.bool('has_max'):
-                o['max_params'] = V.int('max_params', 1, 4)
-            if V.bool('has_min'):
-                o['min_params'] = V.int('min_params', 1, 4)
-        elif g == 'mode':
-            m = V.pick('mode', [None, 'r', 'w', 'a'])
-            if m:
-                o['mode'] = m
-        elif g == 'invalid_values':
-            p = V.pick('invalid_values', ['throw', 'exclude', 'preserve'])
-            if p != 'throw':
-                o['invalid_values'] = p
-    return o
-
-
-def sym_items(V, spec_id, limit=None, strs=True):
-    """solver-chosen ordered input mapping over the key vocabulary of the declaration"""
-    keys = dcspec.key_vocab(spec_id, limit)
-    items = []
-    for k in keys:
-        if V.bool('has_' + k):
-            items.append([k, None])
-    # at most one present key (the first or the last one) carries a string instead of an int
-    odd = V.pick('odd', ['none', 'first', 'last']) if strs and items else 'none'
-    for i, it in enumerate(items):
-        if (odd == 'first' and i == 0) or (odd == 'last' and i == len(items) - 1 and (i > 0 or odd == 'last')):
-            it[1] = V.pick('str_' + it[0], ['x', '5'])
-        else:
-            it[1] = V.int('v_' + it[0])
-    items = [tuple(it) for it in items]
-    spec = dcspec.SPECS[spec_id]
-    twice = any(sum(1 for k, v in items if dcspec.matches(f, k, {'case_insensitive': True})) > 1 for f in spec)
-    if twice and V.bool('reversed'):
-        items.reverse()
-    return items
-
 
 def outcome_eq(a, b):
     if a[0] != b[0]:
@@ -82,12 +20,15 @@ def outcome_eq(a, b):
 
 
 def _c06(V, spec_id, group, base):
-    ci = V.bool('class_case_insensitive') if group == 'alias' else False
-    cls = dcspec.make_class(spec_id, base, {'case_insensitive': True} if ci else None)
     o = sym_options(V, group)
-    items = sym_items(V, spec_id, limit=V.T(5 if spec_id == 'onerr' else 6, 9), strs=V.thorough or spec_id != 'onerr')
-    d = dcspec.run_impl(cls, items, dict(o, data_first_search=True))
-    f = dcspec.run_impl(cls, items, dict(o, data_first_search=False))
+    ci = bool(o.get('case_insensitive'))
+    items = sym_items(V, spec_id, limit=limit_for(V, spec_id, group), strs=V.thorough or spec_id != 'onerr')
+    with V.notrace():
+        cd = dcspec.make_class(spec_id, base, dict(o, data_first_search=True))
+        cf = dcspec.make_class(spec_id, base, dict(o, data_first_search=False))
+    cls = cd
+    d = dcspec.run_impl(cd, items)
+    f = dcspec.run_impl(cf, items)
     show = lambda r: (r[0], r[1]) if r[0] != 'ok' else (r[0], r[1], r[2])
     det = lambda: '%s %r options=%r: data-first -> %r ; field-first -> %r' % (cls.__name__, dict(items), o, show(d), show(f))
     V.check(d[0] != 'crash' and f[0] != 'crash', 'strategy:crash', det)
@@ -97,8 +38,11 @@ def _c06(V, spec_id, group, base):
         V.check(d[1] == f[1] and d[2] == f[2], 'strategy:value:' + _why(spec_id, o, items, d, f, ci), det)
         V.cover('accept')
     else:
-        dc = dcspec.run_impl(cls, items, dict(o, data_first_search=True, collect_errors=True))
-        fc = dcspec.run_impl(cls, items, dict(o, data_first_search=False, collect_errors=True))
+        with V.notrace():
+            ccd = dcspec.make_class(spec_id, base, dict(o, data_first_search=True, collect_errors=True))
+            ccf = dcspec.make_class(spec_id, base, dict(o, data_first_search=False, collect_errors=True))
+        dc = dcspec.run_impl(ccd, items)
+        fc = dcspec.run_impl(ccf, items)
         detc = lambda: det() + ' ; collected: data-first %r field-first %r' % (show(dc), show(fc))
         V.check(dc[0] == 'err' and fc[0] == 'err', 'strategy:collect-verdict', detc)
         V.check(dc[1] == fc[1], 'strategy:error-kinds:' + _why(spec_id, o, items, dc, fc, ci), detc)
@@ -119,30 +63,13 @@ def _why(spec_id, o, items, d, f, ci=False):
     return label or 'other'
 
 
-QUICK = {
-    'basic': ['plain', 'required', 'defaults', 'addition', 'policy'],
-    'alias': ['plain', 'alias', 'addition'],
-    'case': ['plain', 'alias', 'required'],
-    'io': ['plain', 'mode', 'defaults', 'required'],
-    'mode': ['mode', 'required'],
-    'deps': ['plain', 'required', 'alias'],
-    'onerr': ['plain', 'policy', 'required', 'defaults'],
-    'defer': ['plain', 'defaults', 'required'],
-    'mix': list(GROUPS),
-}
-
 for _spec in dcspec.SPECS:
     for _g in GROUPS:
-        if _g == 'mode' and _spec not in ('mode', 'io', 'mix'):
+        if not applicable(_spec, _g):
             continue
-        if _g == 'policy' and _spec not in ('onerr', 'basic', 'mix'):
-            continue
-        ob('%s/%s' % (_spec, _g), marks=['accept', 'reject'] if not (_spec == 'defer' and _g in ('plain', 'defaults', 'alias', 'required')) else ['accept'],
+        ob('%s/%s' % (_spec, _g),
+           marks=['accept', 'reject'] if not (_spec == 'defer' and _g in ('plain', 'defaults', 'alias', 'required')) else ['accept'],
            budget=(60, 400), per_path=(15, 30), thorough_only=_g not in QUICK[_spec],
-           bounds='declaration %r (fields %s) as a Schema; input = solver-chosen subset (and order: as listed or reversed) of '
-                  'the key vocabulary [every accepted spelling, one case variant per field, one unknown key; 6 keys quick (declaration onerr: 5 keys, invalid values are negative ints only), 9 '
-                  'thorough] with unbounded symbolic int values and at most one key (the first or last present) carrying "x" (invalid) or "5" '
-                  '(convertible); option group %r symbolic: %s' % (
-                      _spec, ', '.join(f['name'] for f in dcspec.SPECS[_spec]), _g, GROUPS[_g] or 'none'),
-           out='combinations of option groups (thorough tier adds DataClass base); non-int field types')(
+           bounds=bounds_text(_spec, _g, 'Schema') + '; both lookup strategies on the same input',
+           out='combinations of option groups; non-int field types; DataClass base (covered by C05)')(
             (lambda s, g: lambda V: _c06(V, s, g, 'Schema'))(_spec, _g))
